@@ -177,7 +177,7 @@ pub fn make_nla(ctx: &mut Ctx, cfg: &ClientCfg) -> crate::refsrv::nla::Nla {
             let n = ctx.choose("av_n", 6) as usize;
             for _ in 0..n {
                 let (id, nm) = names[ctx.choose("av_id", names.len() as u64) as usize];
-                let v = if ctx.chance("av_val", 1, 3) { let l = 2 * ctx.choose("av_len", 40) as usize; vec![0x41; l].chunks(2).flat_map(|_| [0x41u8, 0]).collect() } else { utf16le(nm) };
+                let v = if ctx.chance("av_val", 1, 3) { let l = ctx.choose("av_len", 81) as usize; (0..l).map(|i| if i % 2 == 0 { 0x41u8 } else { 0 }).collect() } else { utf16le(nm) };
                 pairs.push((id, v));
             }
             if mode == 3 {
@@ -225,12 +225,17 @@ impl Session {
     /// run Connector::connect against the world; panics are turned into outcomes by the caller
     pub fn connect(world: World, cfg: &ClientCfg) -> Result<Session, Outcome> {
         let mut connector = cfg.connector();
+        Session::connect_with(world, cfg, &mut connector)
+    }
+
+    /// same with a connector owned by the caller (an application may use one connector for several connections)
+    pub fn connect_with(world: World, cfg: &ClientCfg, connector: &mut Connector) -> Result<Session, Outcome> {
         let end = world.client_end();
         {
             let mut ctx = world.ctx.borrow_mut();
             ctx.ev("drv", format!("connect nla={} restricted={} blank={} auto={} hash={} check={} screen={}x{} layout={:#x}", cfg.nla, cfg.restricted, cfg.blank, cfg.auto_logon, cfg.use_hash, cfg.check_cert, cfg.width, cfg.height, LAYOUTS[cfg.layout].1));
         }
-        let res = guard(move || connector.connect(end));
+        let res = guard(|| connector.connect(end));
         match res {
             Err(p) => Err(panic_outcome(&p)),
             Ok(Ok(client)) => {
